@@ -15,7 +15,7 @@ pub const RULE: &str = "case = (alphabet, count data from random sequence sets o
 
 pub const REQUIRED: &[&str] = &[
     "alphabet.dna", "alphabet.protein", "source.from_sequences", "source.raw_counts", "pseudo.scalar", "pseudo.zero",
-    "pseudo.per_symbol", "bg.uniform", "bg.dyadic", "bg.zero_entries", "bg.from_counts", "bg.from_sequence",
+    "pseudo.per_symbol", "bg.uniform", "bg.dyadic", "bg.zero_entries", "bg.tiny_positive_entry", "bg.from_counts", "bg.from_sequence",
     "base.2", "base.10", "base.e", "base.3.7", "route.one_step", "route.two_step", "route.rescale",
     "invalid.unequal_lengths", "invalid.freq_row_sum", "invalid.bg_out_of_range", "invalid.bg_negative_sum_one", "invalid.bg_sum", "invalid.bg_nan",
     "windows.bracketed", "class.neg_inf_score",
@@ -235,7 +235,21 @@ fn run_case<A: Alphabet>(case: u64, rng: &mut Rng, rep: &mut Report, alpha: &str
         }
         1 | 2 => {
             let zero = rng.chance(0.4);
-            bgv = dyadic_bg(rng, k, zero);
+            let mut v = dyadic_bg(rng, k, zero);
+            if rng.chance(0.25) {
+                // a positive frequency far below f32::EPSILON: still inside [0,1], and the f32 sum is
+                // still exactly one (the tiny term is absorbed)
+                let j = rng.below(k);
+                if v[j] == 0.0 {
+                    v[j] = *rng.pick(&[1.0e-8f32, 3.0e-9, 1.0e-12, 1.0e-30]);
+                    if v.iter().fold(0.0f32, |a, &b| a + b) == 1.0 {
+                        rep.cover("bg.tiny_positive_entry");
+                    } else {
+                        v[j] = 0.0;
+                    }
+                }
+            }
+            bgv = v;
             notes.push(format!("Background::new({:?})", bgv));
             rep.cover("bg.dyadic");
             if zero {
